@@ -26,7 +26,7 @@ Definition fns_swap_reduced : list gofn := replace_body n_swap (drop_nth 3) gen_
 (* ItemCollection.Equals comparing the lengths only: the loop over the members removed from the closure *)
 Definition drop_loop (s : stmt) : stmt :=
   match s with
-  | SOn w a p body => SOn w a p (drop_nth 1 body)
+  | SOn w a p body => SOn w a p (drop_nth 2 body)   (* 0: the length test, 1: used := make(...), 2: the loop *)
   | other => other
   end.
 Fixpoint map_nth (n : nat) (f : stmt -> stmt) (s : stmt) : stmt :=
